@@ -252,6 +252,9 @@ func (i *interpreter) store(T types.Type, addr *value, v value) {
 // setCell is the single primitive through which existing memory cells are overwritten; it
 // journals the old value so that the path can be rolled back.
 func (i *interpreter) setCell(addr *value, v value) {
+	if i.shared != nil {
+		i.sharedStore(addr)
+	}
 	if i.journalOn {
 		i.journal = append(i.journal, undoRec{addr: addr, old: *addr})
 	}
